@@ -53,6 +53,8 @@ THEOREMS = [
     "Pyribs.C20.axisFrac_mono",
     "Pyribs.C20.normYs_frac",
     "Pyribs.C20.parallel_lines",
+    "Pyribs.C20.axes_getElem",
+    "Pyribs.C20.parallel_position",
     "Pyribs.C20.sortByObj_perm",
     "Pyribs.C20.sortByObj_sorted",
     "Pyribs.C20.clim_contains",
@@ -268,9 +270,54 @@ def gen_clim(rng, sc):
     return vmin, vmax
 
 
+# frames a caller may legitimately pass as df= ("we will plot data from this argument instead of the data currently
+# in the archive"): the rows of archive.data(return_type="pandas") reordered / relabelled / sliced without
+# reset_index / with a custom metric in the objective column.  The picture must be that of the frame's rows (read
+# by POSITION, whatever the pandas row labels are).
+DF_MODES = ["sorted", "reversed", "shuffled", "sliced", "relabelled", "custom"]
+
+
+def make_frame(archive, mode):
+    df = archive.data(return_type="pandas")
+    if mode == "sorted":
+        return df.sort_values("objective", kind="stable")
+    if mode == "reversed":
+        return df.iloc[::-1]
+    if mode == "shuffled":
+        return df.sample(frac=1, random_state=len(df) + 1)
+    if mode == "sliced":
+        return df.iloc[1::2] if len(df) >= 2 else df.iloc[:]
+    if mode == "relabelled":
+        return df.set_axis(np.arange(len(df))[::-1] * 3 + 100)
+    if mode == "custom":
+        return df.assign(objective=-df["objective"]).iloc[::-1]
+    raise ValueError(mode)
+
+
+def view_data(archive, view):
+    """(rows the picture must show, frame to pass as df=): the archive's data(), or the rows of a modified frame
+    in positional order."""
+    if view is None:
+        return archive.data(), None
+    from ribs.archives import ArchiveDataFrame
+    frame = make_frame(archive, view)
+    adf = ArchiveDataFrame(frame)
+    n = len(adf)
+    return {"index": np.asarray(adf.get_field("index")).reshape(n),
+            "objective": np.asarray(adf.get_field("objective")).reshape(n),
+            "measures": np.asarray(adf.get_field("measures")).reshape(n, archive.measure_dim)}, frame
+
+
+def plots_for(case, view):
+    for k, v in enumerate(case["plots"]):
+        if view is None or v.get("dfmode") == view:
+            yield k, v
+
+
 def gen_variant(rng, sc, **extra):
     vmin, vmax = gen_clim(rng, sc)
-    v = {"vmin": vmin, "vmax": vmax, "cbar": rng.random() < 0.3, "gca": rng.random() < 0.25}
+    v = {"vmin": vmin, "vmax": vmax, "cbar": rng.random() < 0.3, "gca": rng.random() < 0.25,
+         "dfmode": rng.choice(DF_MODES) if rng.random() < 0.5 else None}
     v.update(extra)
     return v
 
@@ -469,9 +516,12 @@ def judge(oracle, corr, obs=None):
 # running one plot variant with the archive and with df=
 
 
-def call_both(fn, archive, variant, kwargs, read, where, vmin, vmax):
-    """Runs `fn` with the archive and with df=archive.data(pandas). Returns (obs, Failure|None)."""
+def call_both(fn, archive, variant, kwargs, read, where, vmin, vmax, frame=None):
+    """Runs `fn` with the archive and with df=archive.data(pandas) — or, when `frame` is given, once with
+    df=frame. Returns (obs, Failure|None)."""
     warnings.simplefilter("ignore")
+    if frame is not None:
+        return call_frame(fn, archive, variant, kwargs, read, where, vmin, vmax, frame)
     stat(f"plots:{fn.__name__}", 2)
     stat("variant:" + ("default-limits" if vmin is None and vmax is None else
                        "explicit-limits" if vmin is not None and vmax is not None else "one-sided-limits"))
@@ -512,6 +562,34 @@ def call_both(fn, archive, variant, kwargs, read, where, vmin, vmax):
         out[0]["_df_diff"] = (f"{where}: df= gives different artists than the archive ({diff}): "
                               f"{_short([out[0][k] for k in diff])[:150]} vs {_short([out[1][k] for k in diff])[:150]}")
     return out[0], None
+
+
+def call_frame(fn, archive, variant, kwargs, read, where, vmin, vmax, frame):
+    stat(f"plots:{fn.__name__}", 1)
+    stat(f"df-mode:{variant.get('dfmode')}")
+    tag = f"{where} df=<{variant.get('dfmode')} frame, row labels {list(frame.index)[:6]}>"
+    base_sum = archive_sum(archive)
+    dsum = frame_sum(frame)
+    fg = Fig(variant.get("gca", False))
+    try:
+        n_before = len(fg.fig.axes)
+        try:
+            fn(archive, fg.ax_arg, df=frame, vmin=vmin, vmax=vmax,
+               cbar="auto" if variant.get("cbar") else None, **kwargs)
+        except Exception as e:  # pylint: disable=broad-except
+            return None, Failure("oracle", f"{tag}: {fn.__name__} raised {type(e).__name__} on a valid frame "
+                                 f"({len(frame)} rows): {str(e)[:120]}")
+        obs, err = read(fg, n_before)
+        if err:
+            return None, Failure("oracle", f"{tag}: {err}")
+        obs["_cbar"] = bool(variant.get("cbar"))
+    finally:
+        fg.close()
+    if archive_sum(archive) != base_sum:
+        return None, Failure("oracle", f"{tag}: plotting modified the archive")
+    if frame_sum(frame) != dsum:
+        return None, Failure("oracle", f"{tag}: {fn.__name__} modified the caller's data frame")
+    return obs, None
 
 
 # --------------------------------------------------------------------------
@@ -603,24 +681,24 @@ def build_grid(case):
     return a
 
 
-def run_grid(case):
+def run_grid(case, view=None):
     from ribs.visualize import grid_archive_heatmap
     a = build_grid(case)
     dims = case["dims"]
     one_d = len(dims) == 1
-    data = a.data()
+    data, frame = view_data(a, view)
     objs = [float(o) for o in data["objective"]]
     gidx = a.int_to_grid_index(data["index"]) if len(objs) else np.zeros((0, len(dims)), dtype=int)
     stored = {tuple(int(g) for g in gi): F(o) for gi, o in zip(gidx, data["objective"])}
     bnd = [[F(b) for b in bb] for bb in a.boundaries]
     lo = [F(x) for x in a.lower_bounds]
     hi = [F(x) for x in a.upper_bounds]
-    for k, v in enumerate(case["plots"]):
+    for k, v in plots_for(case, view):
         tr = bool(v["tr"])
         vmin, vmax = effective_limits(v, objs)
         where = f"{case['kind']} plot#{k} tr={int(tr)} vmin={vmin} vmax={vmax}"
         obs, fail = call_both(grid_archive_heatmap, a, v, {"transpose_measures": tr},
-                              lambda fg, n: read_quadmesh(fg.ax), where, vmin, vmax)
+                              lambda fg, n: read_quadmesh(fg.ax), where, vmin, vmax, frame=frame)
         if fail:
             return fail
         # ---- oracle: the property read on the artists
@@ -700,7 +778,7 @@ def gen_cvt1(rng, pattern=None, scale=None):
             "cma": cma, "ops": ops, "plots": plots}
 
 
-def run_cvt1(case):
+def run_cvt1(case, view=None):
     from ribs.archives import CVTArchive
     from ribs.visualize import cvt_archive_heatmap
     cents = case["centroids"]
@@ -709,17 +787,18 @@ def run_cvt1(case):
                    custom_centroids=np.asarray(cents, dtype=float)[:, None], **cma_kwargs(case))
     ops = case["ops"]
     add_ops(a, case, [op["o"] for op in ops], [[cents[op["c"]]] for op in ops])
-    data = a.data()
+    data, frame = view_data(a, view)
     objs = [float(o) for o in data["objective"]]
     stored = {int(i): F(o) for i, o in zip(data["index"], data["objective"])}
     cs = [F(c) for c in a.centroids[:, 0]]
-    for k, v in enumerate(case["plots"]):
+    for k, v in plots_for(case, view):
         vmin, vmax = effective_limits(v, objs)
         where = f"cvt1 plot#{k} vmin={vmin} vmax={vmax}"
         kw = {"transpose_measures": bool(v["tr"])}
         if v.get("plot_centroids"):
             kw["plot_centroids"] = True
-        obs, fail = call_both(cvt_archive_heatmap, a, v, kw, lambda fg, n: read_quadmesh(fg.ax), where, vmin, vmax)
+        obs, fail = call_both(cvt_archive_heatmap, a, v, kw, lambda fg, n: read_quadmesh(fg.ax), where, vmin, vmax,
+                              frame=frame)
         if fail:
             return fail
         # ---- oracle
@@ -803,7 +882,7 @@ def read_poly(fg, n_before):
             "xlim": tuple(F(v) for v in fg.ax.get_xlim()), "ylim": tuple(F(v) for v in fg.ax.get_ylim())}, None
 
 
-def run_cvt2(case):
+def run_cvt2(case, view=None):
     import matplotlib.pyplot as plt
     from matplotlib.path import Path
     from ribs.archives import CVTArchive
@@ -814,20 +893,20 @@ def run_cvt2(case):
     a = CVTArchive(solution_dim=1, cells=n, ranges=ranges, custom_centroids=cents, **cma_kwargs(case))
     ops = case["ops"]
     add_ops(a, case, [op["o"] for op in ops], [list(cents[op["c"]]) for op in ops])
-    data = a.data()
+    data, frame = view_data(a, view)
     objs = [float(o) for o in data["objective"]]
     stored = {int(i): float(o) for i, o in zip(data["index"], data["objective"])}
     cmap = plt.get_cmap(CMAP)
     lo = [F(x) for x in a.lower_bounds]
     hi = [F(x) for x in a.upper_bounds]
-    for k, v in enumerate(case["plots"]):
+    for k, v in plots_for(case, view):
         tr = bool(v["tr"])
         vmin, vmax = effective_limits(v, objs)
         where = f"cvt2 plot#{k} tr={int(tr)} vmin={vmin} vmax={vmax} clip={int(bool(v.get('clip')))}"
         kw = {"transpose_measures": tr}
         if v.get("clip"):
             kw["clip"] = True
-        obs, fail = call_both(cvt_archive_heatmap, a, v, kw, read_poly, where, vmin, vmax)
+        obs, fail = call_both(cvt_archive_heatmap, a, v, kw, read_poly, where, vmin, vmax, frame=frame)
         if fail:
             return fail
         # ---- ORACLE ONLY (not modelled: qhull polygons): every polygon holds exactly one centroid,
@@ -927,7 +1006,7 @@ def gen_sliding(rng, pattern=None, scale=None):
             "buffer": rng.randint(4, 20), "pattern": pattern, "oscale": sc, "ops": ops, "plots": plots}
 
 
-def run_sliding(case):
+def run_sliding(case, view=None):
     from ribs.archives import SlidingBoundariesArchive
     from ribs.visualize import sliding_boundaries_archive_heatmap
     ranges = [(lo, lo + w) for lo, w in zip(case["lows"], case["widths"])]
@@ -935,7 +1014,7 @@ def run_sliding(case):
                                  remap_frequency=case["remap"], buffer_capacity=case["buffer"])
     ops = case["ops"]
     a.add(np.arange(len(ops), dtype=float)[:, None], [op["o"] for op in ops], [op["m"] for op in ops])
-    data = a.data()
+    data, frame = view_data(a, view)
     objs = [float(o) for o in data["objective"]]
     bnd = [[F(b) for b in bb] for bb in a.boundaries]
     lo = [F(x) for x in a.lower_bounds]
@@ -943,13 +1022,13 @@ def run_sliding(case):
     meas = [(F(m[0]), F(m[1])) for m in data["measures"]]
     if any(not np.array_equal(b, np.linspace(r[0], r[1], d + 1)) for b, r, d in zip(a.boundaries, ranges, case["dims"])):
         stat("sliding:boundaries-remapped")
-    for k, v in enumerate(case["plots"]):
+    for k, v in plots_for(case, view):
         tr = bool(v["tr"])
         vmin, vmax = effective_limits(v, objs)
         where = f"sliding plot#{k} tr={int(tr)} lw={v['lw']} vmin={vmin} vmax={vmax}"
         obs, fail = call_both(sliding_boundaries_archive_heatmap, a, v,
                               {"transpose_measures": tr, "boundary_lw": v["lw"]},
-                              lambda fg, n: read_scatter(fg.ax), where, vmin, vmax)
+                              lambda fg, n: read_scatter(fg.ax), where, vmin, vmax, frame=frame)
         if fail:
             return fail
         xd, yd = (1, 0) if tr else (0, 1)
@@ -1030,7 +1109,7 @@ def gen_prox(rng, pattern=None, scale=None):
             "thr": rng.choice([0.0, 0.125, 0.5, 1.0]), "pattern": pattern, "oscale": sc, "ops": ops, "plots": plots}
 
 
-def run_prox(case):
+def run_prox(case, view=None):
     from ribs.archives import ProximityArchive
     from ribs.visualize import proximity_archive_plot
     a = ProximityArchive(solution_dim=1, measure_dim=2, k_neighbors=case["k"], novelty_threshold=case["thr"],
@@ -1038,10 +1117,10 @@ def run_prox(case):
     ops = case["ops"]
     for i, op in enumerate(ops):  # one call per candidate: admission depends on what is already stored
         a.add([[float(i)]], [op["o"]], [op["m"]])
-    data = a.data()
+    data, frame = view_data(a, view)
     objs = [float(o) for o in data["objective"]]
     meas = [(F(m[0]), F(m[1])) for m in data["measures"]]
-    for k, v in enumerate(case["plots"]):
+    for k, v in plots_for(case, view):
         tr = bool(v["tr"])
         vmin, vmax = effective_limits(v, objs)
         where = f"prox plot#{k} tr={int(tr)} bounds={int(v['bounds'])} vmin={vmin} vmax={vmax}"
@@ -1051,7 +1130,7 @@ def run_prox(case):
             bhi = np.array([lo + w + 1.0 for lo, w in zip(case["lows"], case["widths"])])
             kw["lower_bounds"], kw["upper_bounds"] = blo, bhi
         obs, fail = call_both(proximity_archive_plot, a, v, kw, lambda fg, n: read_scatter(fg.ax), where,
-                              vmin, vmax)
+                              vmin, vmax, frame=frame)
         if fail:
             return fail
         xd, yd = (1, 0) if tr else (0, 1)
@@ -1100,15 +1179,49 @@ def run_prox(case):
 
 def gen_parallel(rng, pattern=None, scale=None):
     sc = make_scale(rng, scale)
-    md = rng.choice([1, 2, 2, 3, 3, 4])
-    dims = [rng.randint(1, 4) for _ in range(md)]
-    lows = [dy(rng, -8, 8, 4) for _ in range(md)]
-    widths = [rng.choice([0.5, 1, 2, 4, 8]) for _ in range(md)]  # powers of two: the normalisation is exact
     pattern = pattern or rng.choice(POINT_PATTERNS)
+    arch = rng.choice(["grid", "grid", "prox"])
     n = {"one": 1, "few": rng.randint(2, 4)}.get(pattern, rng.randint(5, 16))
-    ops = []
-    for _ in range(n):
-        ops.append({"m": [dy(rng, lo, lo + w, 16) for lo, w in zip(lows, widths)], "o": gen_obj(rng, sc)})
+    if arch == "grid":
+        md = rng.choice([1, 2, 2, 3, 3, 4])
+        dims = [rng.randint(1, 4) for _ in range(md)]
+        lows = [dy(rng, -8, 8, 4) for _ in range(md)]
+        widths = [rng.choice([0.5, 1, 2, 4, 8]) for _ in range(md)]  # powers of two: the normalisation is exact
+        ops = [{"m": [dy(rng, lo, lo + w, 16) for lo, w in zip(lows, widths)], "o": gen_obj(rng, sc)}
+               for _ in range(n)]
+    else:
+        # ProximityArchive: its bounds are the min / max of the STORED measures, so a dimension in which all elites
+        # share one value (always the case with exactly one elite) has lower_bounds == upper_bounds.  The other
+        # dimensions contain both ends of a power-of-two range (exact normalisation).
+        md = rng.choice([1, 2, 3, 3, 4])
+        dims = None
+        lows = [dy(rng, -8, 8, 4) for _ in range(md)]
+        widths = [rng.choice([0.5, 1, 2, 4, 8]) for _ in range(md)]
+        if n == 1:
+            flat = [True] * md
+        else:
+            if pattern == "few":
+                n = 2
+            flat = [rng.random() < (0.5 if pattern == "few" else 0.3) for _ in range(md)]
+            if pattern == "few" and md >= 2 and not any(flat):
+                flat[rng.randrange(md)] = True      # two elites sharing a coordinate
+            if all(flat):
+                flat[rng.randrange(md)] = False     # distinct points need one varying coordinate
+        shared = [lo + w * rng.randint(0, 16) / 16 for lo, w in zip(lows, widths)]
+        pts = []
+        for i in range(n):
+            m = []
+            for d in range(md):
+                if flat[d]:
+                    m.append(shared[d])
+                elif i < 2:
+                    m.append(lows[d] + (widths[d] if i == 1 else 0.0))
+                else:
+                    m.append(lows[d] + widths[d] * rng.randint(0, 16) / 16)
+            if m not in pts:
+                pts.append(m)
+        rng.shuffle(pts)
+        ops = [{"m": m, "o": gen_obj(rng, sc)} for m in pts]
     if pattern == "equal":
         for op in ops:
             op["o"] = ops[0]["o"]
@@ -1118,18 +1231,21 @@ def gen_parallel(rng, pattern=None, scale=None):
         if rng.random() < 0.5:
             order = [rng.randrange(md) for _ in range(rng.randint(1, md + 1))]
         plots.append(gen_variant(rng, sc, sort=sort, order=order, named=rng.random() < 0.3))
-    return {"kind": "parallel", "dims": dims, "lows": lows, "widths": widths, "pattern": pattern, "oscale": sc,
-            "ops": ops, "plots": plots}
+    return {"kind": "parallel", "arch": arch, "dims": dims, "lows": lows, "widths": widths, "pattern": pattern,
+            "oscale": sc, "ops": ops, "plots": plots}
 
 
 def read_parallel(ncols):
     def read(fg, n_before):
+        import matplotlib.colors as mcolors
         lines = []
         for ln in fg.ax.get_lines():
-            import matplotlib.colors as mcolors
             xs, ys = ln.get_data()
             if [float(x) for x in xs] != [float(i) for i in range(ncols)]:
                 return None, f"line x data {list(xs)} is not 0..{ncols-1}"
+            if not np.all(np.isfinite(np.asarray(ys, dtype=float))):
+                return None, (f"a line has non-finite y data {[float(y) for y in ys]}: the elite's measures are "
+                              f"not drawn on those axes")
             lines.append({"ys": [F(y) for y in ys], "rgba": [float(c) for c in mcolors.to_rgba(ln.get_color())]})
         axes = fg.fig.axes
         if len(axes) < n_before + ncols - 1:
@@ -1141,66 +1257,104 @@ def read_parallel(ncols):
     return read
 
 
-def run_parallel(case):
+def near(a, b, scale):
+    """rounded relation (a non-dyadic constant is involved): |a - b| <= 2^-30 * scale."""
+    return abs(a - b) <= Fraction(1, 2**30) * max(Fraction(1), abs(scale))
+
+
+def run_parallel(case, view=None):
     import matplotlib.pyplot as plt
-    from ribs.archives import GridArchive
+    from ribs.archives import GridArchive, ProximityArchive
     from ribs.visualize import parallel_axes_plot
     lows, widths = case["lows"], case["widths"]
-    a = GridArchive(solution_dim=1, dims=case["dims"], ranges=[(lo, lo + w) for lo, w in zip(lows, widths)])
     ops = case["ops"]
-    a.add(np.arange(len(ops), dtype=float)[:, None], [op["o"] for op in ops], [op["m"] for op in ops])
-    data = a.data()
+    if case.get("arch", "grid") == "grid":
+        a = GridArchive(solution_dim=1, dims=case["dims"], ranges=[(lo, lo + w) for lo, w in zip(lows, widths)])
+        a.add(np.arange(len(ops), dtype=float)[:, None], [op["o"] for op in ops], [op["m"] for op in ops])
+    else:
+        a = ProximityArchive(solution_dim=1, measure_dim=len(lows), k_neighbors=1, novelty_threshold=0.0,
+                             initial_capacity=8)
+        for i, op in enumerate(ops):
+            a.add([[float(i)]], [op["o"]], [op["m"]])
+    data, frame = view_data(a, view)
     objs = [float(o) for o in data["objective"]]
     rows = [(F(o), [F(x) for x in m]) for o, m in zip(data["objective"], data["measures"])]
     lo = [F(x) for x in a.lower_bounds]
     hi = [F(x) for x in a.upper_bounds]
     cmap = plt.get_cmap(CMAP)
-    for k, v in enumerate(case["plots"]):
+    for k, v in plots_for(case, view):
         sort = bool(v["sort"])
         order = v["order"]
         cols = list(range(len(lows))) if order is None else list(order)
         vmin, vmax = effective_limits(v, objs)
-        where = f"parallel plot#{k} sort={int(sort)} order={order} vmin={vmin} vmax={vmax}"
+        where = (f"parallel[{case.get('arch', 'grid')}] plot#{k} sort={int(sort)} order={order} vmin={vmin} "
+                 f"vmax={vmax}")
         kw = {"sort_archive": sort}
         if order is not None:
             kw["measure_order"] = [(c, f"m{c}") for c in order] if v.get("named") else list(order)
-        obs, fail = call_both(parallel_axes_plot, a, v, kw, read_parallel(len(cols)), where, vmin, vmax)
+        obs, fail = call_both(parallel_axes_plot, a, v, kw, read_parallel(len(cols)), where, vmin, vmax, frame=frame)
         if fail:
             return fail
+        # an axis whose archive bounds coincide (all stored measures share the value) cannot be drawn with these
+        # limits: the property only asks that the limits contain the value; exact comparison elsewhere
+        flat = [lo[c] == hi[c] for c in cols]
+        if any(flat):
+            stat("parallel:zero-range axis plotted")
+        scale = max([abs(x) for x in lo + hi] + [Fraction(1)])
+
+        def same(xs, ys):
+            if any(flat):
+                return len(xs) == len(ys) and all(near(x, y, scale) for x, y in zip(xs, ys))
+            return list(xs) == list(ys)
+
         # ---- oracle: what a viewer reads off the axes
         def oracle():
             for i, c in enumerate(cols):
-                if obs["ylims"][i] != (lo[c], hi[c]):
-                    return Failure("oracle", f"{where}: axis {i} spans {_short(obs['ylims'][i])}, measure {c} has "
-                                   f"bounds {float(lo[c])},{float(hi[c])}")
+                yl = obs["ylims"][i]
+                if not flat[i]:
+                    if yl != (lo[c], hi[c]):
+                        return Failure("oracle", f"{where}: axis {i} spans {_short(yl)}, measure {c} has "
+                                       f"bounds {float(lo[c])},{float(hi[c])}")
+                elif not (yl[0] < yl[1] and yl[0] <= lo[c] <= yl[1]):
+                    return Failure("oracle", f"{where}: axis {i} spans {_short(yl)}, which does not contain the "
+                                   f"stored value {float(lo[c])} of measure {c}")
             if len(obs["lines"]) != len(rows):
                 return Failure("oracle", f"{where}: {len(obs['lines'])} lines for {len(rows)} elites")
             h0, h1 = obs["ylims"][0]
+            if h0 == h1:
+                return Failure("oracle", f"{where}: the host axis has zero height")
             e_lo = F(min(objs) if vmin is None else vmin)
             e_hi = F(max(objs) if vmax is None else vmax)
 
             def colour_of(o):
                 t = Fraction(0) if e_lo == e_hi else min(Fraction(1), max(Fraction(0), (o - e_lo) / (e_hi - e_lo)))
                 return cmap(float(t))
+            # de-normalise: relative height on the host axis -> value shown by axis i at that height
             readings = []
             for ln in obs["lines"]:
                 rd = []
                 for i, c in enumerate(cols):
                     frac = (ln["ys"][i] - h0) / (h1 - h0)
-                    rd.append(lo[c] + frac * (hi[c] - lo[c]))
+                    yl = obs["ylims"][i]
+                    rd.append(yl[0] + frac * (yl[1] - yl[0]))
                 readings.append(rd)
             expected = sorted(rows, key=lambda r: r[0]) if sort else rows
             for j, (ln, rd) in enumerate(zip(obs["lines"], readings)):
                 cands = [r for r in rows if r[0] == expected[j][0]] if sort else [expected[j]]
-                ok = any([r[1][c] for c in cols] == rd and np.allclose(ln["rgba"][:3], colour_of(r[0])[:3],
-                                                                       atol=1e-9, rtol=0) for r in cands)
+                ok = any(same([r[1][c] for c in cols], rd) and np.allclose(ln["rgba"][:3], colour_of(r[0])[:3],
+                                                                           atol=1e-9, rtol=0) for r in cands)
                 if not ok:
                     return Failure("oracle", f"{where}: line {j} reads measures {_short(rd)} colour "
                                    f"{[round(c, 4) for c in ln['rgba'][:3]]}; expected elite(s) "
                                    f"{_short([([r[1][c] for c in cols], r[0]) for r in cands][:3])} with colour "
-                                   f"{[round(float(c), 4) for c in colour_of(cands[0][0])[:3]]}")
-            if sorted(map(tuple, readings)) != sorted(tuple(r[1][c] for c in cols) for r in rows):
-                return Failure("oracle", f"{where}: the lines are not one per stored elite")
+                                   f"{[round(float(c), 4) for c in colour_of(cands[0][0])[:3]]} (axis limits "
+                                   f"{_short(obs['ylims'])})")
+            left = [[r[1][c] for c in cols] for r in rows]
+            for rd in readings:
+                hit = next((w for w in left if same(w, rd)), None)
+                if hit is None:
+                    return Failure("oracle", f"{where}: the lines are not one per stored elite")
+                left.remove(hit)
             if obs["clim"] is not None:
                 msg = clim_check(obs["clim"], vmin, vmax, objs, where, widened_ok=obs.get("_cbar", True))
                 if msg:
@@ -1221,14 +1375,21 @@ def run_parallel(case):
                     mlines.append((Fraction(o), Fraction(t), parse_rats(ys)))
             if len(mlines) != len(obs["lines"]):
                 return Failure("corr", f"{where}: {len(obs['lines'])} lines, model {len(mlines)}")
+            maxes = [] if d.get("axes", "-") == "-" else [parse_pair(t) for t in d["axes"].split("|")]
+            if len(maxes) != len(cols) or not all(same(list(a_), list(b_)) for a_, b_ in zip(obs["ylims"], maxes)):
+                return Failure("corr", f"{where}: axis limits impl={_short(obs['ylims'])} model={_short(maxes)}")
             for j, ln in enumerate(obs["lines"]):
                 cands = [m for m in mlines if m[0] == mlines[j][0]] if sort else [mlines[j]]
-                if not any(m[2] == ln["ys"] and np.allclose(ln["rgba"][:3], cmap(float(m[1]))[:3], atol=1e-9, rtol=0)
-                           for m in cands):
+                if not any(same(m[2], ln["ys"]) and np.allclose(ln["rgba"][:3], cmap(float(m[1]))[:3], atol=1e-9,
+                                                                rtol=0) for m in cands):
                     return Failure("corr", f"{where}: line {j} impl ys={_short(ln['ys'])} rgba={ln['rgba'][:3]} "
                                    f"model={_short([(m[2], m[1]) for m in cands][:3])}")
-            if sorted(tuple(ln["ys"]) for ln in obs["lines"]) != sorted(tuple(m[2]) for m in mlines):
-                return Failure("corr", f"{where}: multiset of lines differs from the model")
+            left = [m[2] for m in mlines]
+            for ln in obs["lines"]:
+                hit = next((w for w in left if same(w, ln["ys"])), None)
+                if hit is None:
+                    return Failure("corr", f"{where}: multiset of lines differs from the model")
+                left.remove(hit)
             if not clim_corr(obs["clim"], parse_pair(d["clim"])):
                 return Failure("corr", f"{where}: clim impl={_short(obs['clim'])} model={d['clim']}")
             return None
@@ -1250,8 +1411,18 @@ def run_case(case):
         return None  # these are never generated empty (the shrinker may ask)
     stat(f"content:{case['kind']}:{case.get('pattern')}")
     stat(f"objectives:{(case.get('oscale') or {}).get('name', 'coarse')}")
+    if case.get("arch"):
+        stat(f"content:{case['kind']}:archive={case['arch']}")
     try:
-        return RUNNERS[case["kind"]](case)
+        f = RUNNERS[case["kind"]](case)
+        if f:
+            return f
+        # second pass: the variants that also pass a modified frame as df= (the archive is rebuilt per mode)
+        for mode in sorted({v["dfmode"] for v in case["plots"] if v.get("dfmode")}):
+            f = RUNNERS[case["kind"]](case, mode)
+            if f:
+                return f
+        return None
     finally:
         import matplotlib.pyplot as plt
         plt.close("all")
